@@ -16,7 +16,9 @@ VALUES = ["1", "abc", "{x}", '"x"', "{a{b}c}", '"a{b}c"', '{a"b}', "{a,b=c}", '"
           '"a {"} b"', "{a \\\\ b}", '" x "', '"pad "', "{\tt}", '" "']
 WS = ["", " ", "\n", "\r\n", "\t", "  ", " \n "]
 GAPS = ["", "% comment", "free text = , \" } {", "a\\@b", "x\ny", "#"]
-ETYPES = ["article", "Book", "commentary", "stringent", "x1", "INPROCEEDINGS", "preambles", "é"]
+ETYPES = ["article", "Book", "commentary", "stringent", "x1", "INPROCEEDINGS", "preambles", "é",
+          "Straße", "ΛΌΓΟΣ", "ſtring", "ǅx"]      # lower() differs from casefold() / is not ASCII-only
+# (an entry type holding U+0130 lower-cases to i + U+0307, which is no word character: see C05 known finding; only fixed witnesses use it)
 FKEYS = ["title", "Author", "year", "a", "A", "f-1", "x.y", "note"]
 ATSP = ["", " ", "\t"]
 
